@@ -614,3 +614,28 @@ Definition unit_deps (lib : ident) (u : dunit) : list ukey :=
   | UInst _ l g _ => [(o_id l, o_id g, 1)]
   | _ => []
   end.
+
+(* the class the reference assigns to a zapped occurrence, by position *)
+Definition cls_of_okind (k : okind) : option cls :=
+  match k with
+  | OUse | OLibPrefix => Some Undeclared
+  | OField => Some UnknownField
+  | OItem => Some UnknownItem
+  | OLibClause => Some UnknownLib
+  | OUnit => Some UnknownUnit
+  | OArch => Some UnknownArch
+  | OFormal => Some UnknownFormal
+  | OOther => None
+  end.
+
+(* the design units of a program in elaboration order, and the program cut after its first k units *)
+Definition flat_units (p : program) : list (ident * dunit) :=
+  flat_map (fun l => map (fun u => (l_name l, u)) (l_units l)) p.
+Fixpoint truncate (k : nat) (p : program) : program :=
+  match p with
+  | [] => []
+  | l :: r => Lib (l_name l) (firstn k (l_units l)) :: truncate (k - length (l_units l)) r
+  end.
+(* the first k units are accepted (the completeness of package bodies is a whole-program condition and not part of it) *)
+Definition prefix_ok (p : program) (k : nat) : Prop :=
+  exists GE, check_libs Exactly [] (map l_name p) 0 (truncate k p) = Ok GE.
